@@ -131,6 +131,10 @@ def parse_reports(line):
         return None
 
 
+class SkipStage(Exception):
+    """a scenario cannot run: its harness build is missing or the wall-clock budget of the run is used up"""
+
+
 def run_batch(ctx, exe, mode, cases, b, timeout=300):
     """Run one harness batch (every case in a forked child with a watchdog inside the harness).  A batch-level
     timeout is retried once.  HANG lines are resolved by re-running the single case up to 3 times:
@@ -138,6 +142,12 @@ def run_batch(ctx, exe, mode, cases, b, timeout=300):
       * reproducible, after result  -> process-teardown hang: the result already printed is used, recorded only
       * reproducible, before result -> initTaskingSystem / parallel_for does not return: reported as a violation
     Returns (rc, lines, stderr)."""
+    import time
+    left = getattr(ctx, "deadline", time.time() + 10 ** 6) - time.time()
+    if exe is None or left < 5:
+        ctx.skipped.append("%s %s (%d cases)%s" % (b, mode, len(cases), " (no build)" if exe is None else " (budget)"))
+        raise SkipStage()
+    timeout = max(5, min(timeout, left))
     for attempt in (1, 2):
         rc, lines, err = vlib.run_lines(ctx, exe, [mode], cases, timeout=timeout)
         if rc != 124:
@@ -196,8 +206,11 @@ def gen_facts(ctx):
     rc, o = vlib.sh(cmd, timeout=300)
     ctx.log("fact table: " + o.strip()[-700:])
     if rc != 0:
-        if os.path.exists(out):
-            os.remove(out)          # never let a stale table stand in for the current tree
+        # never let a stale table stand in for the current tree — but keep the project buildable: an EMPTY table makes only the
+        # source-derived files (ProofsSrc / PropertiesSrc) fail, the model-level theorems are still checked
+        os.makedirs(os.path.dirname(out), exist_ok=True)
+        with open(out, "w") as fh:
+            fh.write("(* fact extraction FAILED on this run: no table *)\nDefinition fact_extraction_failed : unit := tt.\n")          # never let a stale table stand in for the current tree
         ctx.broken.append("fact extraction from the clang AST failed: " + o.strip()[-300:])
         return None
     ctx.cov["source_facts"] = o.strip()
@@ -205,14 +218,54 @@ def gen_facts(ctx):
 
 
 def run(ctx):
-    gen_facts(ctx)
-    ctx.coq_check(("Properties.v", "PropertiesSrc.v"))
-    model = ctx.extract()
+    """Every stage is isolated (failure -> ctx.broken naming the stage, the run continues with what does not need the failed
+    artefact).  The harness and the property-text oracle run whenever a harness build exists, with or without the model."""
+    try:
+        _run(ctx)
+    except Exception as ex:      # last resort: bin/vcheck must still reach ctx.finish() and write the evidence
+        import traceback
+        ctx.broken.append("check aborted by an exception outside any stage: %s: %s | %s" % (type(ex).__name__, str(ex)[:200],
+                                                                                          traceback.format_exc().strip().split("\n")[-3][:160]))
+
+
+def _run(ctx):
+    import time, traceback
+    ctx.deadline = ctx.t0 + int(os.environ.get("VERIF_BUDGET_S", ctx.pick(240, 2400)))      # wall-clock budget of the whole run
+    ctx.skipped = []
+
+    def stage_fail(stage, ex):
+        tb = traceback.format_exc().strip().split("\n")
+        where = [x.strip() for x in tb if x.strip().startswith("File")][-1:] or [""]
+        ctx.broken.append("stage failed: %s: %s: %s (%s)" % (stage, type(ex).__name__, str(ex)[:200], where[0][:120]))
+        ctx.log("stage failed: %s: %s" % (stage, tb[-1][:200]))
+
+    model = None
+    try:
+        gen_facts(ctx)
+    except Exception as ex:
+        stage_fail("fact extraction (tools/c13facts)", ex)
+    try:
+        ctx.coq_check(("Properties.v", "PropertiesSrc.v"))
+    except Exception as ex:
+        stage_fail("Coq build", ex)
+    try:
+        model = ctx.extract()
+    except Exception as ex:
+        stage_fail("extraction / OCaml model build", ex)
+    if not model:
+        ctx.log("no extracted model: the harness reports are judged by the property-text oracle alone")
     jobs = [dict(sources=["harness.cpp"], out="h_" + b, backend=b, sanitize="asan") for b in BACKENDS]
     exes = ctx.cxx_many(jobs)
-    if not model or any(e is None for e in exes):
-        return
     hx = dict(zip(BACKENDS, exes))
+    for j in jobs:      # retry a failed build once with a wider source list; then go on with whatever exists
+        if hx.get(j["backend"]) is None:
+            try:
+                hx[j["backend"]] = ctx.cxx(**dict(j, repo_sources=["rkcommon/common.cpp", "rkcommon/os/library.cpp"], libs=["-ldl"]))
+            except Exception as ex:
+                stage_fail("harness build " + j["out"], ex)
+    if not any(hx.values()):
+        ctx.broken.append("no harness build succeeded: nothing can be run against the tree")
+        return
     r = ctx.rng("cases")
     hist_n, hist_len = {}, {}
     opcount = {}
@@ -220,188 +273,208 @@ def run(ctx):
     pf_nontriv = 0
     pf_hist = {}
     for b in BACKENDS:
-        # ---- the backend's own hardware default (a Section variable of the model)
-        rc, pl0, err = run_batch(ctx, hx[b], "seq", ["-1"], b, timeout=120)
-        out = "\n".join(pl0)
-        reps = parse_reports(out.strip()) if rc == 0 else None
-        if not reps or len(reps) != 2:
-            ctx.violation("%s backend: initTaskingSystem(-1) in a fresh process crashed or printed nothing: %r %s" % (b, out[:200], err[-300:]),
-                          {"backend": b, "case": "-1", "observed": out, "stderr_tail": err[-1500:],
-                           "required": "numTaskingThreads() == 0 before, > 0 after a first init with n <= 0"})
-            continue
-        hw = reps[1]
-        hws[b] = hw
-        if reps[0] != 0 or hw <= 0:
-            ctx.violation("%s backend: numTaskingThreads() is %d before init and %d after initTaskingSystem(-1)" % (b, reps[0], hw),
-                          {"backend": b, "case": "-1", "observed": out.strip(),
-                           "required": "0 before initialisation; a positive hardware-derived default after a first init with n <= 0"})
-            continue
-        model_hw = 1 if b == "debug" else hw       # Debug has no hardware default (always 1): any hw > 0 will do
-        vals = sorted(set([-1, 0, 1, 2, 3, model_hw if b != "debug" else 16, 2 * (model_hw if b != "debug" else 16)]))
-        exh = ctx.pick(3, 4)
-        seqs = [list(t) for k in range(1, exh + 1) for t in itertools.product(vals, repeat=k)]
-        if not ctx.thorough():
-            seqs += [[r.choice(vals) for _ in range(4)] for _ in range(150)]
-        # uses of the tasking system (u: a parallel_for, s: a schedule()d closure) before the first init and between inits
-        uvals = [-1, 1, 3, "u", "s"] if not ctx.thorough() else [-1, 0, 1, 3, 2 * (model_hw if b != "debug" else 16), "u", "s"]
-        useqs = [list(t) for k in range(1, 4) for t in itertools.product(uvals, repeat=k) if any(x in ("u", "s") for x in t)]
-        useqs += [[r.choice(vals + ["u", "u", "s"]) for _ in range(r.randint(3, 5))] for _ in range(ctx.pick(60, 400))]
-        seqs += [s for s in useqs if any(x in ("u", "s") for x in s)]
-        # initTaskingSystem(n, flushDenormals=true) mixed into histories: the flag must not change any report
-        fl = lambda x: x if isinstance(x, str) else "f%d" % x
-        seqs += [[fl(x) if (i + j) % 2 == 0 else x for i, x in enumerate(s)] for j, s in enumerate(seqs[:60])]
-        cases = [" ".join(map(str, s)) for s in seqs]
-        mcases = ["%s %d %s" % (b, model_hw if b != "debug" else 16, " ".join(x[1:] if x.startswith("f") else x for x in c.split())) for c in cases]
-        rc, hl, herr = run_batch(ctx, hx[b], "seq", cases, b, timeout=ctx.pick(300, 1200))
-        mrc, ml, merr = vlib.run_lines(ctx, model, [], mcases, timeout=300)
-        if mrc != 0 or len(ml) != len(cases):
-            ctx.broken.append("model driver failed rc=%s" % mrc)
-            continue
-        if rc != 0 or len(hl) != len(cases):
-            ctx.violation("%s backend: the sequence harness died (rc=%d) after %d of %d histories" % (b, rc, len(hl), len(cases)),
-                          {"backend": b, "case": cases[len(hl)] if len(hl) < len(cases) else None, "stderr_tail": herr[-1500:],
-                           "required": "no crash"}, found_input=len(hl) < len(cases))
-            continue
-        ctx.count(len(cases))
-        reported = False
-        for s, c, h, m in zip(seqs, cases, hl, ml):
-            hist_len[len(s)] = hist_len.get(len(s), 0) + 1
-            for n in s:
-                opk = b + ":" + ("use" if n in ("u", "s") else "init_flag" if isinstance(n, str) else "init")
-                opcount[opk] = opcount.get(opk, 0) + 1
-                if isinstance(n, str) and n.startswith("f"):
-                    n = int(n[1:])
-                key = "use" if n in ("u", "s") else "hw" if n == model_hw and b != "debug" else ("2hw" if n == 2 * model_hw and b != "debug" else str(n))
-                hist_n[key] = hist_n.get(key, 0) + 1
-            mrep = m.split(" workers=")[0]
-            if len(s) >= 2 and len(set(map(str, s))) >= 2:
-                ctx.nontriv(("seq", b, c))
-            if h == mrep or reported or h.startswith("HANG"):
+        try:
+            # ---- the backend's own hardware default (a Section variable of the model)
+            rc, pl0, err = run_batch(ctx, hx[b], "seq", ["-1"], b, timeout=120)
+            out = "\n".join(pl0)
+            reps = parse_reports(out.strip()) if rc == 0 else None
+            if not reps or len(reps) != 2:
+                ctx.violation("%s backend: initTaskingSystem(-1) in a fresh process crashed or printed nothing: %r %s" % (b, out[:200], err[-300:]),
+                              {"backend": b, "case": "-1", "observed": out, "stderr_tail": err[-1500:],
+                               "required": "numTaskingThreads() == 0 before, > 0 after a first init with n <= 0"})
                 continue
-            reps = parse_reports(h)
-            fails = prop_oracle(b, hw, s, reps) if reps is not None else [(-1, "no crash (observed: %s)" % h)]
-            if fails:
-                def still(ns, b=b, hw=hw):
-                    if not ns:
-                        return False
-                    rc2, o2, e2 = ctx.run_exe(hx[b], ["seq"], stdin=" ".join(map(str, ns)) + "\n", timeout=60)
+            hw = reps[1]
+            hws[b] = hw
+            if reps[0] != 0 or hw <= 0:
+                ctx.violation("%s backend: numTaskingThreads() is %d before init and %d after initTaskingSystem(-1)" % (b, reps[0], hw),
+                              {"backend": b, "case": "-1", "observed": out.strip(),
+                               "required": "0 before initialisation; a positive hardware-derived default after a first init with n <= 0"})
+                continue
+            model_hw = 1 if b == "debug" else hw       # Debug has no hardware default (always 1): any hw > 0 will do
+            vals = sorted(set([-1, 0, 1, 2, 3, model_hw if b != "debug" else 16, 2 * (model_hw if b != "debug" else 16)]))
+            exh = ctx.pick(3, 4)
+            seqs = [list(t) for k in range(1, exh + 1) for t in itertools.product(vals, repeat=k)]
+            if not ctx.thorough():
+                seqs += [[r.choice(vals) for _ in range(4)] for _ in range(150)]
+            # uses of the tasking system (u: a parallel_for, s: a schedule()d closure) before the first init and between inits
+            uvals = [-1, 1, 3, "u", "s"] if not ctx.thorough() else [-1, 0, 1, 3, 2 * (model_hw if b != "debug" else 16), "u", "s"]
+            useqs = [list(t) for k in range(1, 4) for t in itertools.product(uvals, repeat=k) if any(x in ("u", "s") for x in t)]
+            useqs += [[r.choice(vals + ["u", "u", "s"]) for _ in range(r.randint(3, 5))] for _ in range(ctx.pick(60, 400))]
+            seqs += [s for s in useqs if any(x in ("u", "s") for x in s)]
+            # initTaskingSystem(n, flushDenormals=true) mixed into histories: the flag must not change any report
+            fl = lambda x: x if isinstance(x, str) else "f%d" % x
+            seqs += [[fl(x) if (i + j) % 2 == 0 else x for i, x in enumerate(s)] for j, s in enumerate(seqs[:60])]
+            cases = [" ".join(map(str, s)) for s in seqs]
+            mcases = ["%s %d %s" % (b, model_hw if b != "debug" else 16, " ".join(x[1:] if x.startswith("f") else x for x in c.split())) for c in cases]
+            rc, hl, herr = run_batch(ctx, hx[b], "seq", cases, b, timeout=ctx.pick(300, 1200))
+            ml = [None] * len(cases)
+            if model:
+                try:
+                    mrc, ml2, merr = vlib.run_lines(ctx, model, [], mcases, timeout=300)
+                    if mrc != 0 or len(ml2) != len(cases):
+                        ctx.broken.append("model driver failed rc=%s on the %s histories: judged by the property-text oracle alone" % (mrc, b))
+                    else:
+                        ml = ml2
+                except Exception as ex:
+                    stage_fail("model driver on the %s histories" % b, ex)
+            if rc != 0 or len(hl) != len(cases):
+                ctx.violation("%s backend: the sequence harness died (rc=%d) after %d of %d histories" % (b, rc, len(hl), len(cases)),
+                              {"backend": b, "case": cases[len(hl)] if len(hl) < len(cases) else None, "stderr_tail": herr[-1500:],
+                               "required": "no crash"}, found_input=len(hl) < len(cases))
+                continue
+            ctx.count(len(cases))
+            reported = False
+            for s, c, h, m in zip(seqs, cases, hl, ml):
+                hist_len[len(s)] = hist_len.get(len(s), 0) + 1
+                for n in s:
+                    opk = b + ":" + ("use" if n in ("u", "s") else "init_flag" if isinstance(n, str) else "init")
+                    opcount[opk] = opcount.get(opk, 0) + 1
+                    if isinstance(n, str) and n.startswith("f"):
+                        n = int(n[1:])
+                    key = "use" if n in ("u", "s") else "hw" if n == model_hw and b != "debug" else ("2hw" if n == 2 * model_hw and b != "debug" else str(n))
+                    hist_n[key] = hist_n.get(key, 0) + 1
+                mrep = m.split(" workers=")[0] if m is not None else None
+                if len(s) >= 2 and len(set(map(str, s))) >= 2:
+                    ctx.nontriv(("seq", b, c))
+                if h == mrep or reported or h.startswith("HANG"):
+                    continue
+                if mrep is None:       # no model: only the property-text oracle decides
+                    rp0 = parse_reports(h)
+                    if rp0 is not None and not prop_oracle(b, hw, s, rp0):
+                        continue
+                reps = parse_reports(h)
+                fails = prop_oracle(b, hw, s, reps) if reps is not None else [(-1, "no crash (observed: %s)" % h)]
+                if fails:
+                    def still(ns, b=b, hw=hw):
+                        if not ns:
+                            return False
+                        rc2, o2, e2 = ctx.run_exe(hx[b], ["seq"], stdin=" ".join(map(str, ns)) + "\n", timeout=60)
+                        rp = parse_reports(o2.strip())
+                        return rp is None or bool(prop_oracle(b, hw, ns, rp))
+                    small = vlib.shrink_list(s, still)
+                    rc2, o2, e2 = ctx.run_exe(hx[b], ["seq"], stdin=" ".join(map(str, small)) + "\n", timeout=60)
                     rp = parse_reports(o2.strip())
-                    return rp is None or bool(prop_oracle(b, hw, ns, rp))
-                small = vlib.shrink_list(s, still)
-                rc2, o2, e2 = ctx.run_exe(hx[b], ["seq"], stdin=" ".join(map(str, small)) + "\n", timeout=60)
-                rp = parse_reports(o2.strip())
-                f2 = prop_oracle(b, hw, small, rp) if rp is not None else [(-1, "no crash")]
-                ctx.violation("%s backend: initTaskingSystem history %s reports %s; required: %s" % (b, small, o2.strip(), "; ".join(x[1] for x in f2)),
-                              {"backend": b, "hardware_default": hw, "case": "initTaskingSystem(n) for n in %s, numTaskingThreads() before and after each" % small,
-                               "observed": o2.strip(), "required": [x[1] for x in f2], "model": mrep if small == s else None, "original_case": c})
-            else:
-                ctx.broken.append("correspondence C13 model vs %s backend on history [%s]: impl=%r model=%r (the property text leaves this case open)"
-                                  % (b, c, h, mrep))
-            reported = True
+                    f2 = prop_oracle(b, hw, small, rp) if rp is not None else [(-1, "no crash")]
+                    ctx.violation("%s backend: initTaskingSystem history %s reports %s; required: %s" % (b, small, o2.strip(), "; ".join(x[1] for x in f2)),
+                                  {"backend": b, "hardware_default": hw, "case": "initTaskingSystem(n) for n in %s, numTaskingThreads() before and after each" % small,
+                                   "observed": o2.strip(), "required": [x[1] for x in f2], "model": mrep if small == s else None, "original_case": c})
+                else:
+                    ctx.broken.append("correspondence C13 model vs %s backend on history [%s]: impl=%r model=%r (the property text leaves this case open)"
+                                      % (b, c, h, mrep))
+                reported = True
 
-        # ---- parallel_for under the limit
-        ns = sorted(set([1, 2, 3, 4, hw, 2 * hw])) if b != "debug" else [1, 3]
-        if not ctx.thorough():
-            ns = [n for n in ns if n in (1, 2, 3, hw, 2 * hw)]
-        pcases = []
-        for n in ns:
-            for size in (n, 10 * n, 10000):
-                for dur in (0, 50, -1):
-                    pcases.append((0, n, size, dur))
-        for (a, n) in [(8, 2), (2, 5), (3, 1), (hw, 3)] + ([(0, -1), (0, 0), (4, 0)] if True else []):
-            pcases.append((a, n, 2000, 50))
-            pcases.append((a, n, 300, -1))
-        # nested parallel_for (depth 2; dur = -2): the bound is on threads inside bodies at once, whatever the nesting
-        for n in [x for x in ns if x <= hw] + ([2] if b == "debug" else []):
-            pcases.append((0, n, n, -2))
-            pcases.append((0, n, 4 * n, -2))
-        pcases.append((8, 3, 6, -2))
-        rc, pl, perr = run_batch(ctx, hx[b], "pf", ["%d %d %d %d" % c for c in pcases], b, timeout=ctx.pick(300, 900))
-        if rc != 0 or len(pl) != len(pcases):
-            ctx.violation("%s backend: the parallel_for harness died (rc=%d) after %d of %d cases" % (b, rc, len(pl), len(pcases)),
-                          {"backend": b, "case": pcases[len(pl)] if len(pl) < len(pcases) else None, "stderr_tail": perr[-1500:]},
-                          found_input=len(pl) < len(pcases))
+            # ---- parallel_for under the limit
+            ns = sorted(set([1, 2, 3, 4, hw, 2 * hw])) if b != "debug" else [1, 3]
+            if not ctx.thorough():
+                ns = [n for n in ns if n in (1, 2, 3, hw, 2 * hw)]
+            pcases = []
+            for n in ns:
+                for size in (n, 10 * n, 10000):
+                    for dur in (0, 50, -1):
+                        pcases.append((0, n, size, dur))
+            for (a, n) in [(8, 2), (2, 5), (3, 1), (hw, 3)] + ([(0, -1), (0, 0), (4, 0)] if True else []):
+                pcases.append((a, n, 2000, 50))
+                pcases.append((a, n, 300, -1))
+            # nested parallel_for (depth 2; dur = -2): the bound is on threads inside bodies at once, whatever the nesting
+            for n in [x for x in ns if x <= hw] + ([2] if b == "debug" else []):
+                pcases.append((0, n, n, -2))
+                pcases.append((0, n, 4 * n, -2))
+            pcases.append((8, 3, 6, -2))
+            rc, pl, perr = run_batch(ctx, hx[b], "pf", ["%d %d %d %d" % c for c in pcases], b, timeout=ctx.pick(300, 900))
+            if rc != 0 or len(pl) != len(pcases):
+                ctx.violation("%s backend: the parallel_for harness died (rc=%d) after %d of %d cases" % (b, rc, len(pl), len(pcases)),
+                              {"backend": b, "case": pcases[len(pl)] if len(pl) < len(pcases) else None, "stderr_tail": perr[-1500:]},
+                              found_input=len(pl) < len(pcases))
+                continue
+            ctx.count(len(pcases))
+            opcount[b + ":pf"] = opcount.get(b + ":pf", 0) + len(pcases)
+            rep1 = False
+            for c, l in zip(pcases, pl):
+                a, n, size, dur = c
+                if l.startswith("HANG"):
+                    continue           # reproducible hang: already reported by run_batch
+                f = dict(t.split("=") for t in l.split() if "=" in t)
+                if b == "debug":
+                    lim = 1
+                elif n > 0:
+                    lim = n
+                elif b == "omp" and a > 0:
+                    lim = a            # sticky: omp_set_num_threads is not called for n <= 0 (model: threads_openmp_last_positive)
+                else:
+                    lim = hw
+                pf_hist["dur=%d" % dur] = pf_hist.get("dur=%d" % dur, 0) + 1
+                want_count = size * 8 if dur == -2 else size
+                ok = ("max_inside" in f and int(f["count"]) == want_count and int(f["max_inside"]) <= lim and int(f["ids"]) <= lim
+                      and int(f["report"]) == lim)
+                if ok:
+                    if int(f["max_inside"]) >= 2:
+                        pf_nontriv += 1
+                        ctx.nontriv(("pf", b, c))
+                elif not rep1:
+                    rep1 = True
+                    ctx.violation("%s backend: after initTaskingSystem(%s%d) parallel_for(%d, body %s us): %s; required: every index once, "
+                                  "numTaskingThreads()==%d, at most %d threads inside the body at once / %d distinct threads"
+                                  % (b, ("%d) then initTaskingSystem(" % a) if a else "", n, size,
+                                     "NESTED: each runs parallel_for(8, body 200" if dur == -2 else ("uneven" if dur < 0 else dur), l, lim, lim, lim),
+                                  {"backend": b, "case": {"earlier_init": a, "init": n, "loop_size": size, "body_us": dur}, "observed": l,
+                                   "nested_inner_loop": "parallel_for(8), body spins 200 us" if dur == -2 else None,
+                                   "required": {"count": want_count, "report": lim, "max_inside_at_most": lim, "distinct_threads_at_most": lim}})
+        except SkipStage:
             continue
-        ctx.count(len(pcases))
-        opcount[b + ":pf"] = opcount.get(b + ":pf", 0) + len(pcases)
-        rep1 = False
-        for c, l in zip(pcases, pl):
-            a, n, size, dur = c
-            if l.startswith("HANG"):
-                continue           # reproducible hang: already reported by run_batch
-            f = dict(t.split("=") for t in l.split() if "=" in t)
-            if b == "debug":
-                lim = 1
-            elif n > 0:
-                lim = n
-            elif b == "omp" and a > 0:
-                lim = a            # sticky: omp_set_num_threads is not called for n <= 0 (model: threads_openmp_last_positive)
-            else:
-                lim = hw
-            pf_hist["dur=%d" % dur] = pf_hist.get("dur=%d" % dur, 0) + 1
-            want_count = size * 8 if dur == -2 else size
-            ok = ("max_inside" in f and int(f["count"]) == want_count and int(f["max_inside"]) <= lim and int(f["ids"]) <= lim
-                  and int(f["report"]) == lim)
-            if ok:
-                if int(f["max_inside"]) >= 2:
-                    pf_nontriv += 1
-                    ctx.nontriv(("pf", b, c))
-            elif not rep1:
-                rep1 = True
-                ctx.violation("%s backend: after initTaskingSystem(%s%d) parallel_for(%d, body %s us): %s; required: every index once, "
-                              "numTaskingThreads()==%d, at most %d threads inside the body at once / %d distinct threads"
-                              % (b, ("%d) then initTaskingSystem(" % a) if a else "", n, size,
-                                 "NESTED: each runs parallel_for(8, body 200" if dur == -2 else ("uneven" if dur < 0 else dur), l, lim, lim, lim),
-                              {"backend": b, "case": {"earlier_init": a, "init": n, "loop_size": size, "body_us": dur}, "observed": l,
-                               "nested_inner_loop": "parallel_for(8), body spins 200 us" if dur == -2 else None,
-                               "required": {"count": want_count, "report": lim, "max_inside_at_most": lim, "distinct_threads_at_most": lim}})
+        except Exception as ex:
+            stage_fail("scenarios of the %s backend" % b, ex)
     # ---- the same loop issued by the initialising thread (control) and by ANOTHER thread (which never called
     # initTaskingSystem): the bound is on every parallel_for, whoever issues it
     ot_obs = {}
     for b in BACKENDS:
-        if b not in hws:
+        try:
+            if b not in hws:
+                continue
+            ocases = [(n, 64 * max(n, 2), 100) for n in (1, 2, 4)]
+            rc, ol, oerr = run_batch(ctx, hx[b], "ot", ["%d %d %d" % c for c in ocases], b, timeout=120)
+            if rc != 0 or len(ol) != len(ocases):
+                ctx.violation("%s backend: the other-thread harness died (rc=%d)" % (b, rc), {"backend": b, "stderr_tail": oerr[-1500:]}, found_input=False)
+                continue
+            ctx.count(2 * len(ocases))
+            opcount[b + ":ot"] = len(ocases)
+            reported_known = False
+            for c, l in zip(ocases, ol):
+                n, size, dur = c
+                lim = 1 if b == "debug" else n
+                f = dict(x.split("=") for x in l.split() if "=" in x)
+                ot_obs["%s:n=%d" % (b, n)] = l
+                if "other_thread_max_inside" not in f:
+                    ctx.violation("%s backend: other-thread case %s: %s" % (b, c, l), {"backend": b, "case": c, "observed": l})
+                    continue
+                main_ok = int(f["init_thread_count"]) == size and int(f["init_thread_max_inside"]) <= lim and int(f["report"]) == lim
+                other_ok = int(f["other_thread_count"]) == size and int(f["other_thread_max_inside"]) <= lim
+                if main_ok and other_ok:
+                    ctx.nontriv(("ot", b, n))
+                    continue
+                if not main_ok or int(f["other_thread_count"]) != size:
+                    ctx.violation("%s backend: after initTaskingSystem(%d), parallel_for(%d, body %d us): %s; required: every index once, at most %d inside at once"
+                                  % (b, n, size, dur, l, lim), {"backend": b, "case": {"init": n, "loop_size": size, "body_us": dur}, "observed": l,
+                                                                "required": {"count": size, "max_inside_at_most": lim}})
+                    continue
+                # excess only in the loop issued by the non-initialising thread: confirm on a second run
+                rc2, o2, e2 = ctx.run_exe(hx[b], ["ot"], stdin="%d %d %d\n" % c, timeout=120)
+                f2 = dict(x.split("=") for x in o2.split() if "=" in x)
+                if not ("other_thread_max_inside" in f2 and int(f2["other_thread_max_inside"]) > lim):
+                    ctx.cov.setdefault("unconfirmed_concurrency_excess", []).append({"backend": b, "case": c, "first": l, "second": o2.strip()})
+                    continue
+                if reported_known:
+                    continue
+                reported_known = True
+                ctx.violation("%s backend: after initTaskingSystem(%d) on the main thread, parallel_for(%d, body %d us) issued by ANOTHER std::thread ran %s "
+                              "(second run: %s) bodies at once; the same loop issued by the initialising thread: %s; required: at most %d"
+                              % (b, n, size, dur, f["other_thread_max_inside"], f2["other_thread_max_inside"], f["init_thread_max_inside"], lim),
+                              {"backend": b, "case": {"init": n, "loop_size": size, "body_us": dur, "issued_by": "a std::thread that never called initTaskingSystem"},
+                               "observed": [l, o2.strip()], "required": {"max_inside_at_most": lim}},
+                              signature=(OMP_SIG if b == "omp" else None))
+        except SkipStage:
             continue
-        ocases = [(n, 64 * max(n, 2), 100) for n in (1, 2, 4)]
-        rc, ol, oerr = run_batch(ctx, hx[b], "ot", ["%d %d %d" % c for c in ocases], b, timeout=120)
-        if rc != 0 or len(ol) != len(ocases):
-            ctx.violation("%s backend: the other-thread harness died (rc=%d)" % (b, rc), {"backend": b, "stderr_tail": oerr[-1500:]}, found_input=False)
-            continue
-        ctx.count(2 * len(ocases))
-        opcount[b + ":ot"] = len(ocases)
-        reported_known = False
-        for c, l in zip(ocases, ol):
-            n, size, dur = c
-            lim = 1 if b == "debug" else n
-            f = dict(x.split("=") for x in l.split() if "=" in x)
-            ot_obs["%s:n=%d" % (b, n)] = l
-            if "other_thread_max_inside" not in f:
-                ctx.violation("%s backend: other-thread case %s: %s" % (b, c, l), {"backend": b, "case": c, "observed": l})
-                continue
-            main_ok = int(f["init_thread_count"]) == size and int(f["init_thread_max_inside"]) <= lim and int(f["report"]) == lim
-            other_ok = int(f["other_thread_count"]) == size and int(f["other_thread_max_inside"]) <= lim
-            if main_ok and other_ok:
-                ctx.nontriv(("ot", b, n))
-                continue
-            if not main_ok or int(f["other_thread_count"]) != size:
-                ctx.violation("%s backend: after initTaskingSystem(%d), parallel_for(%d, body %d us): %s; required: every index once, at most %d inside at once"
-                              % (b, n, size, dur, l, lim), {"backend": b, "case": {"init": n, "loop_size": size, "body_us": dur}, "observed": l,
-                                                            "required": {"count": size, "max_inside_at_most": lim}})
-                continue
-            # excess only in the loop issued by the non-initialising thread: confirm on a second run
-            rc2, o2, e2 = ctx.run_exe(hx[b], ["ot"], stdin="%d %d %d\n" % c, timeout=120)
-            f2 = dict(x.split("=") for x in o2.split() if "=" in x)
-            if not ("other_thread_max_inside" in f2 and int(f2["other_thread_max_inside"]) > lim):
-                ctx.cov.setdefault("unconfirmed_concurrency_excess", []).append({"backend": b, "case": c, "first": l, "second": o2.strip()})
-                continue
-            if reported_known:
-                continue
-            reported_known = True
-            ctx.violation("%s backend: after initTaskingSystem(%d) on the main thread, parallel_for(%d, body %d us) issued by ANOTHER std::thread ran %s "
-                          "(second run: %s) bodies at once; the same loop issued by the initialising thread: %s; required: at most %d"
-                          % (b, n, size, dur, f["other_thread_max_inside"], f2["other_thread_max_inside"], f["init_thread_max_inside"], lim),
-                          {"backend": b, "case": {"init": n, "loop_size": size, "body_us": dur, "issued_by": "a std::thread that never called initTaskingSystem"},
-                           "observed": [l, o2.strip()], "required": {"max_inside_at_most": lim}},
-                          signature=(OMP_SIG if b == "omp" else None))
+        except Exception as ex:
+            stage_fail("scenarios of the %s backend" % b, ex)
     ctx.cov["other_thread_loop_observations"] = ot_obs
     # ---- concurrent re-initialisation: one thread keeps looping parallel_for while the main thread alternates
     # initTaskingSystem(n) / initTaskingSystem(m); never more than max(n, m) threads inside bodies at once
@@ -411,45 +484,57 @@ def run(ctx):
     # other-thread scenario above, not something to report a second time here).
     cre_obs = {}
     for b in ("tbb", "debug"):
-        if b not in hws:
-            continue
-        ms = ctx.pick(500, 2500)
-        ccases = [(2, 2, ms), (2, 4, ms), (3, 1, ms), (1, 1, ms)] if b == "tbb" else [(2, 3, ms // 2)]
-        rc, cl, cerr = run_batch(ctx, hx[b], "cre", ["%d %d %d" % c for c in ccases], b, timeout=120)
-        if rc != 0 or len(cl) != len(ccases):
-            ctx.violation("%s backend: the concurrent re-initialisation harness died (rc=%d)" % (b, rc),
-                          {"backend": b, "stderr_tail": cerr[-1500:]}, found_input=False)
-            continue
-        ctx.count(len(ccases))
-        opcount[b + ":cre"] = len(ccases)
-        for c, l in zip(ccases, cl):
-            n, m, _ = c
-            f = dict(x.split("=") for x in l.split() if "=" in x)
-            lim = 1 if b == "debug" else max(n, m)
-            cre_obs["%s:%d,%d" % (b, n, m)] = l
-            if "max_inside" not in f:
-                ctx.violation("%s backend: concurrent re-initialisation case %s: %s" % (b, c, l), {"backend": b, "case": c, "observed": l})
+        try:
+            if b not in hws:
                 continue
-            if int(f["max_inside"]) <= lim:
-                if int(f.get("bodies", "0")) > 0:
-                    ctx.nontriv(("cre", b, n, m))
+            ms = ctx.pick(500, 2500)
+            ccases = [(2, 2, ms), (2, 4, ms), (3, 1, ms), (1, 1, ms)] if b == "tbb" else [(2, 3, ms // 2)]
+            rc, cl, cerr = run_batch(ctx, hx[b], "cre", ["%d %d %d" % c for c in ccases], b, timeout=120)
+            if rc != 0 or len(cl) != len(ccases):
+                ctx.violation("%s backend: the concurrent re-initialisation harness died (rc=%d)" % (b, rc),
+                              {"backend": b, "stderr_tail": cerr[-1500:]}, found_input=False)
                 continue
-            # confirm on a second run of the same case
-            rc2, o2, e2 = ctx.run_exe(hx[b], ["cre"], stdin="%d %d %d\n" % c, timeout=120)
-            f2 = dict(x.split("=") for x in o2.split() if "=" in x)
-            if "max_inside" in f2 and int(f2["max_inside"]) > lim:
-                ctx.violation("%s backend: while the main thread alternates initTaskingSystem(%d) / initTaskingSystem(%d), a parallel_for loop "
-                              "on another thread had %s (second run: %s) bodies running at once; required: never more than max(%d,%d) = %d"
-                              % (b, n, m, f["max_inside"], f2["max_inside"], n, m, lim),
-                              {"backend": b, "case": {"init_a": n, "init_b": m, "duration_ms": c[2],
-                                                      "scenario": "thread L loops parallel_for(64, body spins 60 us) and counts bodies inside at once; "
-                                                                  "main thread alternates initTaskingSystem(a)/initTaskingSystem(b) every ~150 us"},
-                               "observed": [l, o2.strip()], "required": {"max_inside_at_most": lim}})
-                break          # one report per backend; the other cases are in the coverage
-            else:
-                ctx.cov.setdefault("unconfirmed_concurrency_excess", []).append({"backend": b, "case": c, "first": l, "second": o2.strip()})
+            ctx.count(len(ccases))
+            opcount[b + ":cre"] = len(ccases)
+            for c, l in zip(ccases, cl):
+                n, m, _ = c
+                f = dict(x.split("=") for x in l.split() if "=" in x)
+                lim = 1 if b == "debug" else max(n, m)
+                cre_obs["%s:%d,%d" % (b, n, m)] = l
+                if "max_inside" not in f:
+                    ctx.violation("%s backend: concurrent re-initialisation case %s: %s" % (b, c, l), {"backend": b, "case": c, "observed": l})
+                    continue
+                if int(f["max_inside"]) <= lim:
+                    if int(f.get("bodies", "0")) > 0:
+                        ctx.nontriv(("cre", b, n, m))
+                    continue
+                # confirm on a second run of the same case
+                rc2, o2, e2 = ctx.run_exe(hx[b], ["cre"], stdin="%d %d %d\n" % c, timeout=120)
+                f2 = dict(x.split("=") for x in o2.split() if "=" in x)
+                if "max_inside" in f2 and int(f2["max_inside"]) > lim:
+                    ctx.violation("%s backend: while the main thread alternates initTaskingSystem(%d) / initTaskingSystem(%d), a parallel_for loop "
+                                  "on another thread had %s (second run: %s) bodies running at once; required: never more than max(%d,%d) = %d"
+                                  % (b, n, m, f["max_inside"], f2["max_inside"], n, m, lim),
+                                  {"backend": b, "case": {"init_a": n, "init_b": m, "duration_ms": c[2],
+                                                          "scenario": "thread L loops parallel_for(64, body spins 60 us) and counts bodies inside at once; "
+                                                                      "main thread alternates initTaskingSystem(a)/initTaskingSystem(b) every ~150 us"},
+                                   "observed": [l, o2.strip()], "required": {"max_inside_at_most": lim}})
+                    break          # one report per backend; the other cases are in the coverage
+                else:
+                    ctx.cov.setdefault("unconfirmed_concurrency_excess", []).append({"backend": b, "case": c, "first": l, "second": o2.strip()})
+        except SkipStage:
+            continue
+        except Exception as ex:
+            stage_fail("scenarios of the %s backend" % b, ex)
     ctx.cov["concurrent_reinit_observations"] = cre_obs
-    ctx.cov["inventory"] = inventory(ctx, opcount, set(ctx.cov.get("theorems", [])))
+    if ctx.skipped:
+        ctx.broken.append("scenarios skipped (missing build / wall-clock budget of the run used up): " + "; ".join(ctx.skipped[:12]))
+    ctx.cov["skipped_scenarios"] = ctx.skipped
+    try:
+        ctx.cov["inventory"] = inventory(ctx, opcount, set(ctx.cov.get("theorems", [])))
+    except Exception as ex:
+        stage_fail("inventory closure", ex)
+        ctx.cov["inventory"] = {}
     ctx.cov["inventory_declarations"] = len(ctx.cov["inventory"])
     ctx.cov["operation_counts"] = opcount
     ctx.cov.setdefault("transient_hangs", [])
